@@ -80,7 +80,8 @@ def monC05 (c : MonCtx) : Mon C05St where
     | .cbEnd .stopped true => some { st with graceful := true }
     | .quiescent _ =>
       -- (2) no strong holder left, no stop, no failure: drained, then stopped gracefully
-      if !st.hold.strongHeld && !st.failure && !st.stopIssued then
+      -- (a stream-attached actor whose stream ended terminates for that reason: C13 judges it)
+      if !st.hold.strongHeld && !st.failure && !st.stopIssued && !(c.cfg.stream && st.streamEnded) then
         if st.terminated && st.graceful && st.sentOk.all (fun m => st.handled.contains m) then some st else none
       else some st
     | l =>
